@@ -329,7 +329,7 @@ func genWorldEdit(rng *rand.Rand, n int, emit func(string)) {
 		}
 		if rng.Intn(4) == 0 {
 			// one or two failing calls in the first sync
-			_, log := runSyncCase(c)
+			log := dryRunSync(c)
 			for k := 0; k < 1+rng.Intn(2) && len(log) > 0; k++ {
 				j := rng.Intn(len(log))
 				occ := 0
